@@ -69,6 +69,18 @@ def run(c, cfg, err, **kw):
     return hooks.run_adaptive(c, **args)
 
 
+def maybe_restart(rng, c, cfg, err, obs, res, prob=0.2):
+    """The documented way to go on from an existing refinement: a second performSpatiallyAdaptiv with the ORIGINAL start
+    levels and refinement_container=<current refinement>; the observer keeps watching the continued history."""
+    if getattr(obs, "steps", 0) < 1 or rng.random() >= prob:
+        return False
+    obs.max_steps = obs.steps + rng.randint(1, 3)
+    cfg["restarted_with_refinement_container"] = True
+    res.count("restarts_with_refinement_container")
+    run(c, cfg, err, refinement_container=c.refinement)
+    return True
+
+
 # ---- state readers --------------------------------------------------------------------------------
 def intervals(c, k):
     return [(o.start, o.end, tuple(o.levels), o.coarsening_level, o.benefit, id(o))
